@@ -92,14 +92,14 @@ def _degenerate_some_units(rng, k, mode_axis=-1):
   return k
 
 
-def _cmp_cols(ctx, site, full_u, single, what, info=None):
+def _cmp_cols(ctx, site, full_u, single, what, info=None, ulps=4):
   full_u, single = np.asarray(full_u, dtype=np.float64), np.asarray(single, dtype=np.float64)
-  tol = 4 * core.F32_EPS * core.scale_of(full_u, single)
+  tol = ulps * core.F32_EPS * core.scale_of(full_u, single)
   ok = full_u.shape == single.shape and bool(np.all(np.isfinite(full_u) == np.isfinite(single)))
   e = float(np.nanmax(np.abs(full_u - single))) if ok and full_u.size else (0.0 if ok else float("inf"))
   if not np.isfinite(e):
     e = 0.0 if ok else float("inf")
-  ctx.check(site, ok and e <= tol, "%s: differs by %.3g (4 ulp = %.3g)" % (what, e, tol), info=info, ratio=e / tol)
+  ctx.check(site, ok and e <= tol, "%s: differs by %.3g (%d ulp = %.3g)" % (what, e, ulps, tol), info=info, ratio=e / tol)
   if ok and e == 0.0:
     ctx.note("bitwise-equal:" + site)
 
@@ -198,17 +198,21 @@ def _run_constraint(ctx, case, st):
   if kind == "pwl" and desc.get("conv"):
     ctx.note("shape-changing comparisons skipped: PWL convexity chain amplifies shape-dependent rounding")
   else:
+    # An iterated PWL projection (Dykstra, up to 200 iterations, bounds and clamps) accumulates the shape-dependent
+    # rounding too (4.6e-5 at scale 3 after 30 iterations, thorough tier): 4 ulp per iteration for the shape-changing
+    # comparisons; a leak between units is O(0.1 * scale) and the same-shape test above stays at 4 ulp.
+    ulps = 4 * (1 + int(desc.get("iters", 0))) if kind == "pwl" else 4
     for u in range(units):
       single = make()(tf.constant(k[:, u:u + 1])).numpy()
       _cmp_cols(ctx, "constraint/column-alone-equal", full[:, u:u + 1], single, "%s constraint, column %d alone" % (kind, u),
-                {"unit": u, "config": core.to_jsonable(desc)})
+                {"unit": u, "config": core.to_jsonable(desc)}, ulps=ulps)
     perm = rng.permutation(units)
     fp = make()(tf.constant(k[:, perm])).numpy()
-    _cmp_cols(ctx, "constraint/unit-permutation-equivariant", full[:, perm], fp, "%s constraint under unit permutation %s" % (kind, perm.tolist()))
+    _cmp_cols(ctx, "constraint/unit-permutation-equivariant", full[:, perm], fp, "%s constraint under unit permutation %s" % (kind, perm.tolist()), ulps=ulps)
     if units >= 3:
       sub = [0, units - 1]
       fs = make()(tf.constant(k[:, sub])).numpy()
-      _cmp_cols(ctx, "constraint/column-alone-equal", full[:, sub], fs, "%s constraint, unit subset %s" % (kind, sub))
+      _cmp_cols(ctx, "constraint/column-alone-equal", full[:, sub], fs, "%s constraint, unit subset %s" % (kind, sub), ulps=ulps)
   return bool(np.abs(full - k).max() > 0), core.digest([kind, core.to_jsonable(desc), core.arr_digest(k)])
 
 
